@@ -31,6 +31,7 @@ RULE = ("Enumerated part: for a fixed record list (sizes 0,1,16,4096,65536,"
 RULE += (' Transport variants: plain TCP, and one that keeps delivering in-flight data between loseConnection() and connectionLost. Readers: eager, lazy (first read after the peer is done), consumers with expected=N incl. 0; the sender may close in an orderly way after its last record.')
 RULE += (' In a third of the sampled runs 61..600 simulated seconds pass on the established connection (an application that keeps the pipe open).')
 RULE += (' Half of the sampled runs use slow consumers which pause their producer from inside write() and resume when the scheduler says so.')
+RULE += (' 1/24 of the sampled runs send 1000..2500 tiny records to a receiver that is busy meanwhile (reads are at most 64 KiB).')
 LEVEL_TEXT = ("Fault enumeration over manipulation points of a fixed stream "
               "plus seeded exploration of streams/chunkings/reader modes. "
               "Oracle: what the reader obtains is always a prefix of the "
